@@ -1031,8 +1031,15 @@ class Context:
         ctx = self  # Capture self for closure
 
         def regexp_constructor_fn(*args):
-            pattern = to_string(args[0]) if args else ""
-            flags = to_string(args[1]) if len(args) > 1 else ""
+            source = args[0] if args else UNDEFINED
+            flags_arg = args[1] if len(args) > 1 else UNDEFINED
+            if isinstance(source, JSRegExp):
+                # new RegExp(re) / new RegExp(re, flags): the same pattern, its flags unless given
+                pattern = source._pattern
+                flags = source._flags if flags_arg is UNDEFINED else to_string(flags_arg)
+            else:
+                pattern = "(?:)" if source is UNDEFINED else to_string(source)
+                flags = "" if flags_arg is UNDEFINED else to_string(flags_arg)
             # Create timeout callback if we have a current VM with time_limit
             poll_callback = None
             if ctx._current_vm and ctx._current_vm.time_limit is not None:
